@@ -24,6 +24,8 @@ def run(ctx, rep):
         check_src(crate, rep, cfg)
         check_chunkname(crate, rep, cfg)
         check_setsrc(crate, rep, cfg)
+        import rpanic
+        rpanic.check(crate, rep, "R-PANIC.report", ("errors.rs", "reporting.rs", "utils.rs"), cfg, 4)
 
 
 def check_src(crate, rep, cfg):
